@@ -55,7 +55,7 @@ func (eval Evaluator) ExternalProduct(op0 *rlwe.Ciphertext, op1 *Ciphertext, opO
 		params := eval.GetRLWEParameters()
 
 		// If log(Q) * (Q-1)**2 < 2^{64}-1
-		if ringQ := params.RingQ(); levelQ == 0 && levelP == -1 && (ringQ.SubRings[0].Modulus>>29) == 0 {
+		if ringQ := params.RingQ(); levelQ == 0 && levelP == -1 && (ringQ.SubRings[0].Modulus>>29) == 0 && fitsIn64Bits(ringQ.SubRings[0].Modulus, op1) {
 			eval.externalProduct32Bit(op0, op1, c0QP.Q, c1QP.Q)
 			ringQ.AtLevel(0).IMForm(c0QP.Q, opOut.Value[0])
 			ringQ.AtLevel(0).IMForm(c1QP.Q, opOut.Value[1])
@@ -329,4 +329,11 @@ func MulByXPowAlphaMinusOneThenAddLazy(ctIn *Ciphertext, powXMinusOne ringqp.Pol
 			ringQP.MulCoeffsMontgomeryLazyThenAddLazy(ctIn.Value[1].Value[i][j][1], powXMinusOne, opOut.Value[1].Value[i][j][1])
 		}
 	}
+}
+
+// fitsIn64Bits returns true if the sum of the products of the unreduced
+// 32-bit external product (2 * #digits terms of at most (q-1)*(6q-2)) fits in an uint64.
+func fitsIn64Bits(q uint64, op1 *Ciphertext) bool {
+	n := float64(2 * len(op1.Value[0].Value[0]))
+	return n*float64(q-1)*float64(6*q-2) < 18446744073709551616.0
 }
